@@ -104,13 +104,35 @@ class Ownership:
         else:
             A, slots = aliases(fn, [site.res])
 
+        outparams = {pn for pty, pn in fn.params if pty.endswith('**')} if fn.retty.strip() == 'i32' else set()
+        # a conditional expression `c ? NULL : obj` hands the object on only for one outcome of c (unless c tests obj itself)
+        partial = set()
+        for ins in fn.insts():
+            if ins.op == 'select' and ins.res in A and 'null' in ins.ops[1:]:
+                c = fn.defs.get(ins.ops[0])
+                selftest = c is not None and c.op == 'icmp' and 'null' in c.ops and any(o in A for o in c.ops)
+                if not selftest:
+                    partial.add(ins.res)
+        changed = True
+        while changed:
+            changed = False
+            for ins in fn.insts():
+                if ins.op in ('phi', 'bitcast') and ins.res not in partial:
+                    ops = [v for v, _ in ins.incoming] if ins.op == 'phi' else ins.ops
+                    if any(o in partial for o in ops) and not any(o in A and o not in partial for o in ops):
+                        partial.add(ins.res); changed = True
+
         def event(ins):
             if ins.op == 'ret':
+                if ins.ops and ins.ops[0] in partial:
+                    return 'ESC?', 'returned by a conditional expression whose other value is NULL'
                 if ins.ops and ins.ops[0] in A:
                     return 'ESC', 'returned'
             if ins.op == 'store' and ins.ops[0] in A:
                 if strip_ptr_casts(fn, ins.ops[1]) in slots:
                     return None
+                if strip_ptr_casts(fn, ins.ops[1]) in outparams:
+                    return 'OUT', 'stored to an output parameter'
                 return 'ESC', 'stored to memory'
             if ins.op == 'call' and ins is not site:
                 cs = self.callees(fn, ins)
@@ -139,15 +161,20 @@ class Ownership:
                 ev = event(ins)
                 if ev:
                     if ev[0] == 'FREE':
-                        if cur == {'F'}:
-                            reports.append(('double-free', site, ins, ev[1]))
-                        elif 'F' in cur and 'O' not in cur and 'N' not in cur and 'E' not in cur:
+                        if 'F' in cur:
+                            # some path reaches this free with the object already freed (null tests refine F away only
+                            # when the pointer was reset, which the alias set does not model: callers reset after free
+                            # appear as a new definition, not as this object)
                             reports.append(('double-free', site, ins, ev[1]))
                         cur = {('F' if s == 'O' else s) for s in cur}
                     elif ev[0] == 'ESC':
                         if cur == {'F'}:
                             reports.append(('use-after-free', site, ins, ev[1]))
                         cur = {('E' if s == 'O' else s) for s in cur}
+                    elif ev[0] == 'OUT':
+                        cur = {('P' if s == 'O' else s) for s in cur}      # handed to the caller through *out
+                    elif ev[0] == 'ESC?':
+                        cur = cur | ({'E'} if 'O' in cur else set())       # owned on the NULL outcome: the leak test below still sees O
                 if ins.op == 'ret' and 'O' in cur:
                     reports.append(('leak', site, ins, ''))
                 if ins is site:
@@ -172,7 +199,23 @@ class Ownership:
                     self._push(work, seen, fn.blocks[lab], frozenset(nst))
             else:
                 for lab in (t.targets or []):
-                    self._push(work, seen, fn.blocks[lab], frozenset(cur))
+                    nb = fn.blocks[lab]
+                    nst = set(cur)
+                    rt = nb.insts[-1]
+                    if rt.op == 'ret' and rt.ops and 'P' in nst:
+                        rp = fn.defs.get(rt.ops[0])
+                        inc = [v for v, l in rp.incoming if l == b.label] if rp is not None and rp.op == 'phi' and rp.bb is nb else []
+                        if inc and re.match(r'^-\d+$', inc[0]) and not any(i.op == 'call' for i in nb.insts):
+                            reports.append(('error-with-output', site, b.insts[-1], inc[0]))
+                    if rt.op == 'ret' and rt.ops and 'O' in nst:
+                        rp = fn.defs.get(rt.ops[0])
+                        if rp is not None and rp.op == 'phi' and rp.bb is nb and rp.res in A and all(i.op == 'phi' for i in nb.insts[:-1]):
+                            inc = [v for v, l in rp.incoming if l == b.label]
+                            if inc and inc[0] not in A:
+                                # this edge returns something else (NULL, an error value) while the object is still owned
+                                reports.append(('leak', site, b.insts[-1], ''))
+                                nst = {x for x in nst if x != 'O'} | {'E'}
+                    self._push(work, seen, nb, frozenset(nst))
         # leaks found at the merged return block are attributed to the edges that bring the owned state in
         return reports
 
